@@ -54,7 +54,7 @@ def expected(inputs):
 
 
 def run(ctx):
-    from lib.sim import Sim, Fifo, RandomOrder, Coalesce
+    from lib.sim import Sim, Fifo, RandomOrder, Coalesce, HoldCoalesce
     ok = ctx.build() and ctx.check_props()
     rng = ctx.rng
     ctx.rule = ('case = (m, t, prss, crashing party, byte offset of the cut in its outgoing streams, fault mode, schedule); '
@@ -102,7 +102,7 @@ def run(ctx):
                     continue
                 if v != want:
                     ctx.violation('crash-free-output-wrong m=%d' % m, {**key0, 'party': pid, 'output': k, 'got': v, 'want': want})
-        per_party = ctx.n(14 if m == 3 else 6, 60 if m == 3 else 25)
+        per_party = ctx.n(10 if m == 3 else 5, 60 if m == 3 else 25)
         for c in range(m):
             W = writes[c]
             cand = set()
@@ -116,7 +116,7 @@ def run(ctx):
                 cand = sorted(rng.sample(cand, per_party * 2))
             for cut in cand:
                 mode = rng.choice(['silent', 'lost-none', 'lost-exc', 'lost-none-early', 'lost-none-early'])
-                sched = rng.choice(['fifo', 'random', 'coalesce', 'coalesce'])
+                sched = rng.choice(['fifo', 'random', 'coalesce', 'holdcoalesce', 'holdcoalesce'])
                 store = {}
                 sim = Sim(m, t, no_prss=no_prss, seed=seed)
                 try:
@@ -124,7 +124,7 @@ def run(ctx):
                     sim.net.cut[c] = cut
                     if mode == 'lost-none-early':
                         sim.net.loss_mode = 'none'     # survivors learn of the disconnect while still computing
-                    policy = Fifo() if sched == 'fifo' else (Coalesce() if sched == 'coalesce' else RandomOrder(random.Random(cut)))
+                    policy = {'fifo': Fifo(), 'coalesce': Coalesce(), 'holdcoalesce': HoldCoalesce(c)}.get(sched) or RandomOrder(random.Random(cut))
                     r = sim.run(make_prog(inputs, store), policy, idle_limit=250, spins=3 if sched == 'coalesce' else 1)
                     if mode in ('lost-none', 'lost-exc') and c in sim.net.dead:
                         for q in range(m):
@@ -154,6 +154,47 @@ def run(ctx):
                                               {**key, 'party': pid, 'output': k, 'got': v, 'want': exp[k]})
                 finally:
                     sim.close()
+    # ---- dense scan of cut offsets under late, coalesced delivery of the crashing party's traffic (a truncated frame
+    #      arriving behind complete frames in one read): every offset in the thorough tier, every 6th (phase = seed) in quick
+    m, t, no_prss = 3, 1, False
+    inputs = [3, -4, 7]
+    exp = expected(inputs)
+    seed = 5
+    step = ctx.n(6, 1)
+    parties = [ctx.seed % m] if ctx.tier == 'quick' else list(range(m))
+    store = {}
+    sim = Sim(m, t, no_prss=no_prss, seed=seed)
+    try:
+        sim.start()
+        base = {c: sum(len(sim.net.stream[(c, q)]) for q in range(m) if q != c) for c in range(m)}
+        sim.run(make_prog(inputs, store), Fifo())
+        total = {c: sum(len(sim.net.stream[(c, q)]) for q in range(m) if q != c) - base[c] for c in range(m)}
+    finally:
+        sim.close()
+    for c in parties:
+        for cut in range(1 + (ctx.seed % step), total[c], step):
+            store = {}
+            sim = Sim(m, t, no_prss=no_prss, seed=seed)
+            try:
+                sim.start()
+                sim.net.cut[c] = cut
+                sim.run(make_prog(inputs, store), HoldCoalesce(c), idle_limit=120)
+                nruns += 1
+                key = {'m': m, 't': t, 'inputs': inputs, 'seed': seed, 'crashed': c, 'cut': cut, 'of': total[c],
+                       'mode': 'silent', 'schedule': 'holdcoalesce-scan'}
+                ctx.case(key, nontrivial=c in sim.net.dead, kind='scan')
+                for pid in range(m):
+                    if pid == c:
+                        continue
+                    for k, v in store.get(pid, {}).items():
+                        if v is None or (isinstance(v, list) and all(x is None for x in v)):
+                            continue
+                        ncompleted += 1
+                        if v != exp[k]:
+                            ctx.violation('survivor-output-wrong-after-crash m=%d t=%d' % (m, t),
+                                          {**key, 'party': pid, 'output': k, 'got': v, 'want': exp[k]})
+            finally:
+                sim.close()
     ctx.extra['crash_runs'] = nruns
     ctx.extra['survivor_outputs_completed_and_checked'] = ncompleted
     ctx.log('%d crash runs, %d completed survivor outputs checked' % (nruns, ncompleted))
